@@ -306,6 +306,29 @@ func (p *Program) verifyFunc(key string, safetyOnly bool) *FuncResult {
 					"nothing stored in the result aliases spare capacity of a caller's slice (append(path, k) must be cloned before it is kept); reachable labels: "+deep)
 			}
 		}
+		// noretain p: the storage of parameter p (or a spare-capacity extension of it) is not reachable from the result
+		for _, fc := range []*Contract{icon, con} {
+			if fc == nil || len(rp.vals) == 0 {
+				continue
+			}
+			for _, pn := range fc.NoRetain {
+				v := rp.vals[0]
+				deep := joinLabel(labelOf(v), ownOf(v))
+				goal := True
+				for _, lab := range strings.Split(deep, "|") {
+					if plainLabel(lab) == "param:"+pn {
+						goal = False
+					}
+				}
+				if goal == False {
+					e.retainsSeen[pn] = true
+					// ownership transfer instead: every call site must hand over storage it owns (checked there)
+					continue
+				}
+				e.oblige("fresh", fmt.Sprintf("%s#noretain(%s)@%s", key, pn, e.posStr(rp.pos)), rp.pos, rp.pc, goal,
+					"the result does not keep the storage of parameter "+pn+" (it must be cloned before it is stored); reachable labels: "+deep)
+			}
+		}
 		for _, en := range enss {
 			i := en.idx
 			cenv := renv
@@ -423,3 +446,21 @@ func (p *Program) staleLoops(key string) []string {
 }
 
 var _ = strings.Contains
+
+// retains reports whether the body of key may keep the storage of parameter pn in its result
+// (decided on provenance labels by a solver-free pass over the function; optimistic for a call that
+// is already being analysed, i.e. direct recursion).
+func (p *Program) retains(key, pn string) bool {
+	k := key + "/" + pn
+	if v, ok := p.retainsCache[k]; ok {
+		return v
+	}
+	if p.retainsCache == nil {
+		p.retainsCache = map[string]bool{}
+	}
+	p.retainsCache[k] = false
+	r := p.verifyFunc(key, false)
+	v := r.exec != nil && r.exec.retainsSeen[pn]
+	p.retainsCache[k] = v
+	return v
+}
